@@ -5,9 +5,13 @@
   values of `store` do *not* hand back the same weights), `integrate` (inherited from `Grid`),
   `save`, and the per-atom argument fan-out of `from_preset` / `from_size` / `from_pruned`.
 
-  Hand-written; tied to the code by correspondence (harness/props/c07.py) and, for the
-  selection logic of the three convenience constructors, by the regenerated
-  `Gen/MolGrid.lean` (theorem `C07.gen_selection_eq_model`).
+  Hand-written; tied to the code by correspondence (harness/props/c07.py) and by the regenerated
+  `Gen/MolGrid.lean`: the selection logic of the three convenience constructors
+  (`C07.gen_selection_eq_model`), the constructor core `__init__` statement by statement
+  (`C07.gen_init_eq_model`), `get_atomic_grid` and `__getitem__` (`C07.gen_getAtomicGrid_eq_model`,
+  `C07.gen_getItem_eq_model`).  The NumPy / Python list primitives the generated code is written
+  in (`npZeros`, `npSum`, `pySetItem`, `pySetSlice`, `pyForEnum`, `mkLocalGrid`, …) are defined
+  here, by hand.
 
   `AtomGrid` and `BeckeWeights` are *given components* (their correctness is C05/C06): an
   atomic grid is what `MolGrid` reads of it — `points`, `weights`, `center` —, the atomic-grid
@@ -62,6 +66,67 @@ def allOk (f : α → Py β) : List α → Py (List β)
       | .error e => .error e
       | .ok bs => .ok (b :: bs)
 
+/-! ### NumPy array primitives of the constructor (used by the generated `Gen.MolGrid.init`) -/
+
+/-- A NumPy scalar used as a *shape*: `np.sum` of a Python list of integers is an integer —
+except for the empty list, where NumPy answers the float `0.0`; `len(...)` is an integer. -/
+inductive NpNum where
+  | int (n : Nat)
+  | float0
+  deriving DecidableEq, Repr
+
+/-- The numerical value (for comparisons such as `aim_weights.size != size`: `0 != 0.0` is false). -/
+def NpNum.toNat : NpNum → Nat
+  | .int n => n
+  | .float0 => 0
+
+/-- `np.sum([... integers ...])`. -/
+def npSum : List Nat → NpNum
+  | [] => .float0
+  | l => .int l.sum
+
+/-- `np.zeros(n)`, `np.zeros((n, 3))`, `np.zeros(n, dtype=int)` — `n` cells holding `zero`
+(the zero row / `0.0` / `0`); a float shape raises `TypeError`
+(`'numpy.float64' object cannot be interpreted as an integer`). -/
+def npZeros (n : NpNum) (zero : α) : Py (List α) :=
+  match n with
+  | .int n => pure (List.replicate n zero)
+  | .float0 => throw .typeError
+
+/-- `a[i] = v` on the first axis: a negative index counts from the end (once), anything outside
+raises `IndexError`. -/
+def pySetItem (l : List α) (i : Int) (v : α) : Py (List α) :=
+  let j : Int := if i < 0 then i + (l.length : Int) else i
+  if j < 0 then throw .indexError else
+  if j.toNat < l.length then pure (l.set j.toNat v) else throw .indexError
+
+/-- NumPy's shape rule for `dst[a:b] = vals` on the first axis, `n = len(dst[a:b])`: as many
+entries as the slice has, or exactly one entry (broadcast to every position of the slice — also
+to an empty slice); everything else is `ValueError` ("could not broadcast input array"). -/
+def fitSlice (n : Nat) (vals : List α) : Py (List α) :=
+  if vals.length = n then pure vals else
+  match vals with
+  | [v] => pure (List.replicate n v)
+  | _ => throw .valueError
+
+/-- `l[a:b] = vals` for non-negative `a`, `b`: the slice is clipped to the array as in `pySlice`
+(empty when `b ≤ a`), the values must fit it (`fitSlice`), the array keeps its length. -/
+def pySetSlice (l : List α) (a b : Nat) (vals : List α) : Py (List α) :=
+  let a' := min a l.length
+  let n := min b l.length - a'
+  match fitSlice n vals with
+  | .error e => .error e
+  | .ok v => pure (l.take a' ++ v ++ l.drop (a' + n))
+
+/-- `for i, x in enumerate(xs): state = body(state, i, x)` where the body may raise (counter
+starting at `i`). -/
+def pyForEnum {σ : Type} (body : σ → Nat → α → Py σ) : Nat → List α → σ → Py σ
+  | _, [], s => pure s
+  | i, a :: r, s =>
+    match body s i a with
+    | .error e => .error e
+    | .ok s' => pyForEnum body (i + 1) r s'
+
 section numeric
 variable [Add K] [Mul K] [NatCast K]
 
@@ -96,6 +161,22 @@ def AtGrid.WF (g : AtGrid P K) : Prop := g.points.length = g.weights.length
 
 instance (g : AtGrid P K) : Decidable g.WF := inferInstanceAs (Decidable (_ = _))
 
+/-- What the constructor's `_points[start:end] = atom_grid.points` accepts (`fitSlice`): as many
+points as the grid's size, or exactly one point (NumPy broadcasts it over the segment). A real
+`Grid` object is always `WF`; a duck-typed object with one point and `k ≠ 1` weights is *not*
+rejected by `MolGrid.__init__` (found by experiment, round 2). -/
+def AtGrid.Fits (g : AtGrid P K) : Prop := g.points.length = g.size ∨ g.points.length = 1
+
+instance (g : AtGrid P K) : Decidable g.Fits := inferInstanceAs (Decidable (_ ∨ _))
+
+/-- The segment of the molecular grid's points that atom `g` fills: its points — a single point
+repeated `size` times when the lengths differ (only then; `= g.points` for every `WF` grid). -/
+def AtGrid.segPoints (g : AtGrid P K) : List P :=
+  if g.points.length = g.size then g.points else
+  match g.points with
+  | [v] => List.replicate g.size v
+  | ps => ps
+
 /-- The `aim_weights` argument: a callable evaluated on `(points, atcoords, atnums, indices)`,
 an `np.ndarray`, or anything else (rejected with `TypeError`). -/
 inductive AimArg (P K : Type) where
@@ -127,6 +208,12 @@ def SubGrid.isAtom : SubGrid P K → Bool
   | .atom _ => true
   | .localGrid .. => false
 
+/-- `LocalGrid(points, weights, center)`: `Grid.__init__` rejects different numbers of points
+and weights with `ValueError`. -/
+def mkLocalGrid (points : List P) (weights : List K) (center : P) : Py (SubGrid P K) :=
+  if points.length ≠ weights.length then throw .valueError
+  else pure (.localGrid points weights center)
+
 /-- `Grid.integrate(values)` of the handed-back grid. -/
 def SubGrid.integrate [Add K] [Mul K] [NatCast K] (g : SubGrid P K) (vals : List K) : Py K :=
   if vals.length ≠ g.weights.length then throw .valueError
@@ -155,17 +242,18 @@ def indexTable (sizes : List Nat) : List Nat := prefixSums 0 sizes
 
 * no atomic grid: `np.sum([])` is the float `0.0`, `np.zeros((0.0, 3))` raises `TypeError`;
 * `_points[start:end] = atom_grid.points` needs as many points as the atomic grid's size
-  (always so for a `Grid`; otherwise NumPy's `ValueError`);
+  (always so for a `Grid`) or exactly one point, which NumPy broadcasts over the segment
+  (`AtGrid.Fits`, `AtGrid.segPoints`); otherwise NumPy's `ValueError`;
 * array aim weights of another size: `ValueError`; neither callable nor array: `TypeError`;
 * the result of a callable is used as it comes (`mulBroadcast`). -/
 def MolGrid.init [Add K] [Mul K] [NatCast K] (atnums : List Nat) (atgrids : List (AtGrid P K))
     (aim : AimArg P K) (store : Bool) : Py (MolGrid P K) :=
   if atgrids.isEmpty then throw .typeError else
-  if ¬ (∀ g ∈ atgrids, g.WF) then throw .valueError else
+  if ¬ (∀ g ∈ atgrids, g.Fits) then throw .valueError else
   let sizes := atgrids.map AtGrid.size
   let indices := indexTable sizes
   let size := sizes.sum
-  let points := (atgrids.map AtGrid.points).flatten
+  let points := (atgrids.map AtGrid.segPoints).flatten
   let atweights := (atgrids.map AtGrid.weights).flatten
   let atcoords := atgrids.map AtGrid.center
   let stored := if store then some atgrids else none
@@ -198,7 +286,7 @@ def MolGrid.getAtomicGrid (m : MolGrid P K) (index : Int) : Py (SubGrid P K) :=
     let a ← pyGet m.indices index
     let b ← pyGet m.indices (index + 1)
     let c ← pyGet m.atcoords index
-    pure (.localGrid (pySlice m.points a b) (pySlice m.atweights a b) c)
+    mkLocalGrid (pySlice m.points a b) (pySlice m.atweights a b) c
 
 /-- `MolGrid.__getitem__(index)` as coded: without stored grids a
 `LocalGrid(points[s:f], weights[s:f], _atcoords[index])` with the **aim-weighted** molecular
@@ -210,7 +298,7 @@ def MolGrid.getItem (m : MolGrid P K) (index : Int) : Py (SubGrid P K) :=
     let s ← pyGet m.indices index
     let f ← pyGet m.indices (index + 1)
     let c ← pyGet m.atcoords index
-    pure (.localGrid (pySlice m.points s f) (pySlice m.weights s f) c)
+    mkLocalGrid (pySlice m.points s f) (pySlice m.weights s f) c
   | some gs => do pure (.atom (← pyGet gs index))
 
 /-- The keys `MolGrid.save` writes, in order; it iterates `self.atgrids`, hence `TypeError`
